@@ -83,10 +83,34 @@ func setup(c *vf.Ctx) *env {
 			c.Must(fmt.Errorf("%s", r), "clear refs")
 		}
 	}
+	if r := e.g.Run(e.template, "repack", "-adq"); !r.OK() {
+		c.Must(fmt.Errorf("%s", r), "repack template")
+	}
+	os.RemoveAll(filepath.Join(e.template, "hooks"))
+	os.RemoveAll(filepath.Join(e.template, "objects", "info", "commit-graph"))
+	var err2 error
+	e.objs, err2 = loadObjs(e.template)
+	c.Must(err2, "read template objects")
 	st := filesystem.NewStorage(osfs.New(e.template), cache.NewObjectLRUDefault())
+	for _, id := range e.pool {
+		cm, err := object.GetCommit(st, plumbing.NewHash(id))
+		c.Must(err, "pool commit")
+		e.trees[id] = cm.TreeHash.String()
+	}
+	st.Close()
+	return e
+}
+
+// loadObjs reads every object of the repository at dir.
+func loadObjs(dir string) ([]raw, error) {
+	st := filesystem.NewStorage(osfs.New(dir), cache.NewObjectLRUDefault())
+	defer st.Close()
 	it, err := st.IterEncodedObjects(plumbing.AnyObject)
-	c.Must(err, "iter objects")
-	c.Must(it.ForEach(func(o plumbing.EncodedObject) error {
+	if err != nil {
+		return nil, err
+	}
+	var objs []raw
+	err = it.ForEach(func(o plumbing.EncodedObject) error {
 		rd, err := o.Reader()
 		if err != nil {
 			return err
@@ -96,16 +120,10 @@ func setup(c *vf.Ctx) *env {
 			return err
 		}
 		rd.Close()
-		e.objs = append(e.objs, raw{o.Type(), b.Bytes()})
+		objs = append(objs, raw{o.Type(), b.Bytes()})
 		return nil
-	}), "read objects")
-	for _, id := range e.pool {
-		cm, err := object.GetCommit(st, plumbing.NewHash(id))
-		c.Must(err, "pool commit")
-		e.trees[id] = cm.TreeHash.String()
-	}
-	st.Close()
-	return e
+	})
+	return objs, err
 }
 
 func putRaw(st storer.EncodedObjectStorer, t plumbing.ObjectType, data []byte) (plumbing.Hash, error) {
@@ -126,40 +144,28 @@ func putRaw(st storer.EncodedObjectStorer, t plumbing.ObjectType, data []byte) (
 }
 
 // newMem builds a memory storage holding the pool objects and the case's refs.
-func (e *env) newMem(init map[string]string) *memory.Storage {
+func newMem(objs []raw, init map[string]string) (*memory.Storage, error) {
 	st := memory.NewStorage()
-	for _, o := range e.objs {
+	for _, o := range objs {
 		if _, err := putRaw(st, o.typ, o.data); err != nil {
-			e.c.Must(err, "seed memory storage")
+			return nil, err
 		}
 	}
 	for n, id := range init {
-		e.c.Must(st.SetReference(plumbing.NewHashReference(plumbing.ReferenceName(n), plumbing.NewHash(id))), "seed ref")
+		if err := st.SetReference(plumbing.NewHashReference(plumbing.ReferenceName(n), plumbing.NewHash(id))); err != nil {
+			return nil, err
+		}
 	}
-	return st
+	return st, nil
 }
 
 // prepDir creates a bare repository directory holding the case's initial state.
 func (e *env) prepDir(name string, init map[string]string, packed bool) (string, error) {
 	dir := filepath.Join(e.c.Scratch, name)
-	if err := gitx.CopyDir(e.template, dir); err != nil {
+	if err := copyTree(e.template, dir); err != nil {
 		return "", err
 	}
-	if len(init) > 0 {
-		var b strings.Builder
-		for _, n := range sortedKeys(init) {
-			fmt.Fprintf(&b, "create %s %s\n", n, init[n])
-		}
-		if r := e.g.RunIn(dir, []byte(b.String()), "update-ref", "--stdin"); !r.OK() {
-			return "", fmt.Errorf("update-ref: %s", r)
-		}
-		if packed {
-			if r := e.g.Run(dir, "pack-refs", "--all"); !r.OK() {
-				return "", fmt.Errorf("pack-refs: %s", r)
-			}
-		}
-	}
-	return dir, nil
+	return dir, writeRefs(dir, init, packed)
 }
 
 func sortedKeys(m map[string]string) []string {
@@ -169,47 +175,6 @@ func sortedKeys(m map[string]string) []string {
 	}
 	sort.Strings(ks)
 	return ks
-}
-
-// readRefsRaw reads the refs of a bare repository straight from disk (git's
-// on-disk definition: loose files override packed-refs), without relying on
-// go-git and without git refusing to list refs whose object is missing.
-func readRefsRaw(dir string) (map[string]string, []string) {
-	refs := map[string]string{}
-	var odd []string
-	if b, err := os.ReadFile(filepath.Join(dir, "packed-refs")); err == nil {
-		for _, ln := range strings.Split(string(b), "\n") {
-			if ln == "" || ln[0] == '#' || ln[0] == '^' {
-				continue
-			}
-			f := strings.SplitN(ln, " ", 2)
-			if len(f) == 2 && len(f[0]) == 40 {
-				refs[f[1]] = f[0]
-			} else {
-				odd = append(odd, "packed-refs line "+ln)
-			}
-		}
-	}
-	root := filepath.Join(dir, "refs")
-	filepath.Walk(root, func(p string, info os.FileInfo, err error) error {
-		if err != nil || info.IsDir() {
-			return nil
-		}
-		rel, _ := filepath.Rel(dir, p)
-		if strings.HasSuffix(rel, ".lock") {
-			odd = append(odd, "leftover "+rel)
-			return nil
-		}
-		b, _ := os.ReadFile(p)
-		s := strings.TrimSpace(string(b))
-		if len(s) == 40 {
-			refs[filepath.ToSlash(rel)] = s
-		} else {
-			odd = append(odd, fmt.Sprintf("loose %s = %q", rel, s))
-		}
-		return nil
-	})
-	return refs, odd
 }
 
 // existsGit asks git which of ids are present in the repository.
@@ -429,11 +394,11 @@ func (cs *Case) shape(server string) (string, bool) {
 }
 
 // runGoGit feeds the request to transport.ReceivePack over st.
-func runGoGit(st storage.Storer, cs *Case, req []byte) (out []byte, errS, panicS string) {
+func runGoGit(st storage.Storer, stateless bool, req []byte) (out []byte, errS, panicS string) {
 	var buf bytes.Buffer
 	p, stack := vf.Catch(func() {
 		err := transport.ReceivePack(context.Background(), st, nopRC{bytes.NewReader(req)}, nopWC{&buf},
-			&transport.ReceivePackRequest{StatelessRPC: cs.Stateless})
+			&transport.ReceivePackRequest{StatelessRPC: stateless})
 		if err != nil {
 			errS = err.Error()
 		}
@@ -474,11 +439,13 @@ type pending struct {
 
 func run(c *vf.Ctx) {
 	e := setup(c)
-	nCases := c.N(320, 5000)
-	batch := 80
-	sampleEvery := c.N(8, 25)
+	nCases := c.N(220, 4000)
+	batch := 600
+	sampleEvery := c.N(10, 25)
 	var mu sync.Mutex
 	sampled := 0
+	confirmed := map[string]int{}
+	confirmCap := c.N(2, 10)
 	phase := map[string]float64{}
 	tick := func(name string, t0 time.Time) { phase[name] += time.Since(t0).Seconds() }
 	for start := 0; start < nCases; start += batch {
@@ -500,26 +467,10 @@ func run(c *vf.Ctx) {
 		})
 		tick("prep", t0)
 		t0 = time.Now()
-		// phase 2 (sequential): the go-git server code
-		for _, p := range ps {
-			if p.dir == "" {
-				continue
-			}
-			// memory storage
-			mst := e.newMem(p.cs.Init)
-			out, errS, panicS := runGoGit(mst, p.cs, p.req)
-			om := &Outcome{Server: "gogit-mem", Err: errS, Panic: panicS, Final: memRefs(mst), Exists: map[string]bool{}}
-			om.Report, _ = parseOutput(out, !p.cs.Stateless, p.cs.sideband())
-			for _, id := range idsOfInterest(p.cs, om.Final) {
-				om.Exists[id] = mst.HasEncodedObject(plumbing.NewHash(id)) == nil
-			}
-			// filesystem storage
-			fst := filesystem.NewStorage(osfs.New(p.dir), cache.NewObjectLRUDefault())
-			out, errS, panicS = runGoGit(fst, p.cs, p.req)
-			fst.Close()
-			of := &Outcome{Server: "gogit-fs", Err: errS, Panic: panicS}
-			of.Report, _ = parseOutput(out, !p.cs.Stateless, p.cs.sideband())
-			p.outs = []*Outcome{om, of}
+		// phase 2: the go-git server code, in child processes (each child sequential; race detector
+		// reports and fatal errors of a child are classified by the parent)
+		if !e.runSeqChildren(ps, start) {
+			return
 		}
 		tick("gogit", t0)
 		t0 = time.Now()
@@ -533,7 +484,8 @@ func run(c *vf.Ctx) {
 			of := p.outs[1]
 			var odd []string
 			of.Final, odd = readRefsRaw(p.dir)
-			ex, err := e.existsGit(p.dir, idsOfInterest(p.cs, of.Final))
+			ids := idsOfInterest(p.cs, of.Final)
+			ex, err := existsOnDisk(p.dir, ids)
 			if err != nil {
 				c.Broken("observe %s: %v", p.dir, err)
 				return
@@ -542,7 +494,6 @@ func run(c *vf.Ctx) {
 			if len(odd) > 0 {
 				c.Count("fs_odd_ref_files", 1) // residue (empty loose file, .lock): a ref-store matter (C15/C17), not part of this statement
 			}
-			needConfirm := false
 			type found struct {
 				o  *Outcome
 				vs []Viol
@@ -574,49 +525,78 @@ func run(c *vf.Ctx) {
 					}
 				}
 				if len(vs) > 0 {
-					needConfirm = true
 					fs = append(fs, found{o, vs})
 				} else {
 					c.Count("consistent_outcomes", 1)
 				}
 			}
+			// git confirms: every violation key until it has been confirmed confirmCap times in this
+			// run (per key and storage), plus a deterministic sample of all cases.
+			needConfirm := false
 			mu.Lock()
-			doSample := p.cs.Idx%sampleEvery == 0
-			mu.Unlock()
-			if !needConfirm && !doSample {
-				return
-			}
-			// git confirms: same bytes against a twin of the initial state
-			og, err := e.runGit(p.cs, p.req)
-			if err != nil {
-				c.Broken("git twin: %v", err)
-				return
-			}
-			c.Count("git_confirmations", 1)
-			gvs, ok := explain(p.cs, og)
-			if !ok || len(gvs) > 0 {
-				c.Broken("MODEL-MISMATCH: real git's outcome does not satisfy the oracle (%v ok=%v)\n%s", gvs, ok, describe(p.cs, og))
-				return
-			}
-			mu.Lock()
-			if sampled < 4 && (needConfirm || p.cs.Idx%3 == 0) {
-				sampled++
-				c.Sample(map[string]any{"case": p.cs, "gogit_fs": of, "git": og})
-			}
-			mu.Unlock()
 			for _, f := range fs {
 				for _, v := range f.vs {
-					// git must refuse what go-git applied (for state clauses)
-					if v.Cmd >= 0 && (v.Clause == "stale-old" || v.Clause == "missing-object") {
-						nm := p.cs.Cmds[v.Cmd].Name
-						if og.Final[nm] == f.o.Final[nm] && og.Final[nm] != p.cs.Init[nm] && !hasDupName(p.cs, nm) {
-							c.Broken("MODEL-MISMATCH: git applied the same update go-git is blamed for (%s)\n%s\n%s", v.Key(), describe(p.cs, f.o), describe(p.cs, og))
-							continue
-						}
+					k := f.o.Server + "|" + v.Key()
+					if confirmed[k] < confirmCap {
+						confirmed[k]++
+						needConfirm = true
 					}
-					c.Count("violations_git_confirmed", 1)
-					c.Fail(v.Key(), fmt.Sprintf("clause %s on command %d\n%s\n--- real git on the same bytes ---\n%s", v.Key(), v.Cmd, describe(p.cs, f.o), describe(p.cs, og)),
-						map[string]any{"case": p.cs, "gogit": f.o, "git": og})
+				}
+			}
+			mu.Unlock()
+			doSample := p.cs.Idx%sampleEvery == 0
+			var og *Outcome
+			if needConfirm || doSample {
+				og, err = e.runGit(p.cs, p.req)
+				if err != nil {
+					c.Broken("git twin: %v", err)
+					return
+				}
+				c.Count("git_confirmations", 1)
+				gvs, ok := explain(p.cs, og)
+				if !ok || len(gvs) > 0 {
+					c.Broken("MODEL-MISMATCH: real git's outcome does not satisfy the oracle (%v ok=%v)\n%s", gvs, ok, describe(p.cs, og))
+					return
+				}
+				// validate the process-free object-presence reader on go-git's directory
+				gex, err := e.existsGit(p.dir, ids)
+				if err != nil {
+					c.Broken("cat-file: %v", err)
+					return
+				}
+				for _, id := range ids {
+					if gex[id] != ex[id] {
+						c.Broken("READER-MISMATCH: object %s present per git=%v, per pack-index reader=%v in %s", id, gex[id], ex[id], p.dir)
+					}
+				}
+				c.Count("reader_validations", 1)
+				mu.Lock()
+				if sampled < 4 && (len(fs) > 0 || p.cs.Idx%3 == 0) {
+					sampled++
+					c.Sample(map[string]any{"case": p.cs, "gogit_fs": of, "git": og})
+				}
+				mu.Unlock()
+			}
+			for _, f := range fs {
+				for _, v := range f.vs {
+					what := fmt.Sprintf("clause %s on command %d\n%s", v.Key(), v.Cmd, describe(p.cs, f.o))
+					rp := map[string]any{"case": p.cs, "gogit": f.o}
+					if og != nil {
+						// git must refuse what go-git applied (for state clauses)
+						if v.Cmd >= 0 && (v.Clause == "stale-old" || v.Clause == "missing-object") {
+							nm := p.cs.Cmds[v.Cmd].Name
+							if og.Final[nm] == f.o.Final[nm] && og.Final[nm] != p.cs.Init[nm] && !hasDupName(p.cs, nm) {
+								c.Broken("MODEL-MISMATCH: git applied the same update go-git is blamed for (%s)\n%s\n%s", v.Key(), describe(p.cs, f.o), describe(p.cs, og))
+								continue
+							}
+						}
+						c.Count("violations_git_confirmed", 1)
+						what += "\n--- real git on the same bytes ---\n" + describe(p.cs, og)
+						rp["git"] = og
+					} else {
+						c.Count("violations_beyond_confirmation_cap", 1)
+					}
+					c.Fail(v.Key(), what, rp)
 				}
 			}
 		})
@@ -628,10 +608,13 @@ func run(c *vf.Ctx) {
 	c.Extra("phase_seconds_informational", phase)
 	c.Extra("git_invocations", gitx.Calls.Load())
 	c.Floor("requests", c.Counter("requests_gogit-mem")+c.Counter("requests_gogit-fs"), c.N(400, 8000))
-	c.Floor("git confirmations", c.Counter("git_confirmations"), c.N(30, 150))
+	c.Floor("git confirmations", c.Counter("git_confirmations"), c.N(25, 150))
 	c.Floor("ok report lines (updates really applied)", c.Counter("ok_lines"), c.N(100, 1500))
 	c.Floor("ng report lines (updates really refused)", c.Counter("ng_lines"), c.N(50, 800))
-	c.Assume("the final reference state of filesystem repositories is read straight from loose ref files and packed-refs (git's on-disk format); object presence is asked from git cat-file --batch-check")
+	c.Assume("the final reference state of filesystem repositories is read straight from loose ref files and packed-refs (git's on-disk format); object presence from loose files / version-2 pack indexes; both readers and the ref writer are validated against git (receive-pack advertisement, for-each-ref, cat-file --batch-check) in every confirmation step")
+	c.Assume("git confirmation: every violation key is replayed against real git receive-pack until confirmed 3 (quick) / 10 (thorough) times per run and storage kind; further hits of an already confirmed key are reported without a git run (process spawns are the bottleneck)")
+	c.Assume("a delete whose old id names no object of the repository is not judged for old-value equality: git itself skips the comparison there (builtin/receive-pack.c sets old_oid = NULL)")
+	c.Assume("the text of the unpack line is not judged when per-reference lines are present (go-git repeats the first command error there; observation counter obs_unpack_line_carries_command_error)")
 	c.Assume("a delete of an absent ref may be reported ok (git does, with a warning) as long as nothing changes; a permitted update that the server refuses is not a violation of the statement (safety only) and is only counted")
 	c.Assume("memory storage is exercised sequentially only (it is not documented as safe for concurrent use); concurrent pushes use one filesystem.Storage per connection on a shared directory, as the loaders do")
 }
@@ -647,7 +630,8 @@ func hasDupName(cs *Case, n string) bool {
 }
 
 // runGit replays the request bytes against real git receive-pack on a fresh
-// twin of the initial state.
+// twin of the initial state. The advertisement git prints validates the ref
+// writer; git for-each-ref afterwards validates the ref reader.
 func (e *env) runGit(cs *Case, req []byte) (*Outcome, error) {
 	dir, err := e.prepDir(fmt.Sprintf("git-%d", cs.Idx), cs.Init, cs.Packed)
 	if err != nil {
@@ -658,12 +642,37 @@ func (e *env) runGit(cs *Case, req []byte) (*Outcome, error) {
 	if r.Timeout {
 		return nil, fmt.Errorf("git receive-pack timed out")
 	}
-	o := &Outcome{Server: "git"}
+	o := &Outcome{Server: "git", Hint: -1}
 	if r.Code != 0 {
 		o.Err = fmt.Sprintf("exit %d: %s", r.Code, strings.TrimSpace(string(r.Err)))
 	}
-	o.Report, _ = parseOutput(r.Out, true, cs.sideband())
+	var adv []string
+	o.Report, adv = parseOutput(r.Out, true, cs.sideband())
+	seen := map[string]string{}
+	for _, a := range adv {
+		a = strings.TrimSuffix(strings.SplitN(a, "\x00", 2)[0], "\n")
+		f := strings.SplitN(a, " ", 2)
+		if len(f) == 2 && strings.HasPrefix(f[1], "refs/") {
+			seen[f[1]] = f[0]
+		}
+	}
+	if !sameState(seen, cs.Init) {
+		return nil, fmt.Errorf("WRITER-MISMATCH: git advertises %v for an initial state written as %v", seen, cs.Init)
+	}
 	o.Final, _ = readRefsRaw(dir)
+	fr := e.g.Run(dir, "for-each-ref", "--format=%(refname) %(objectname)")
+	if !fr.OK() {
+		return nil, fmt.Errorf("for-each-ref on the git twin: %s", fr)
+	}
+	gitRefs := map[string]string{}
+	for _, ln := range strings.Split(strings.TrimSpace(string(fr.Out)), "\n") {
+		if f := strings.SplitN(ln, " ", 2); len(f) == 2 {
+			gitRefs[f[0]] = f[1]
+		}
+	}
+	if !sameState(gitRefs, o.Final) {
+		return nil, fmt.Errorf("READER-MISMATCH: git for-each-ref %v vs raw reader %v", gitRefs, o.Final)
+	}
 	o.Exists, err = e.existsGit(dir, idsOfInterest(cs, o.Final))
 	return o, err
 }
